@@ -318,6 +318,8 @@ fn supervise(prop: &str, tier: Tier, seed: u64) -> i32 {
     let mut hashes: HashSet<u64> = HashSet::new();
     let mut per_variant: BTreeMap<String, Value> = BTreeMap::new();
     let mut notes: BTreeSet<String> = BTreeSet::new();
+    let mut probe_seen: BTreeMap<String, (Value, String)> = BTreeMap::new();
+    let mut probe_comparisons = 0u64;
     for job in &jobs {
         let res: Option<Value> = std::fs::read_to_string(&job.out).ok().and_then(|t| serde_json::from_str(&t).ok());
         let pv = per_variant.entry(job.variant.clone()).or_insert_with(|| json!({"workers": 0, "evaluations": 0, "abnormal_exits": 0, "wall_s_max": 0.0}));
@@ -330,6 +332,24 @@ fn supervise(prop: &str, tier: Tier, seed: u64) -> i32 {
                 merge_value(&mut merged["counters"], &r["counters"], "");
                 merge_value(&mut merged["maxima"], &r["maxima"], "max");
                 merge_value(&mut merged["monitor"], &r["monitor"], "");
+                // fixed probe inputs: every build variant must have produced the same result (timing independence)
+                if let Some(ph) = r["monitor"]["probe_hashes"].as_object() {
+                    for (name, h) in ph {
+                        match probe_seen.get(name) {
+                            None => {
+                                probe_seen.insert(name.clone(), (h.clone(), job.variant.clone()));
+                            }
+                            Some((h0, v0)) => {
+                                probe_comparisons += 1;
+                                if h0 != h {
+                                    raw_violations.push(json!({"property": prop, "symptom": "determinism:cross-variant", "variant": job.variant,
+                                        "detail": format!("probe {} gives result hash {} in build variant {} but {} in {}: the result depends on the build or on how long the call takes", name, h, job.variant, h0, v0),
+                                        "replay": {"kind": "probe", "name": name}}));
+                                }
+                            }
+                        }
+                    }
+                }
                 for s in r["samples"].as_array().unwrap_or(&vec![]) {
                     if samples.len() < 4 {
                         samples.push(s.clone());
@@ -470,6 +490,9 @@ fn supervise(prop: &str, tier: Tier, seed: u64) -> i32 {
     }
     coverage.insert("known_findings_reported".into(), json!(known_lines.iter().collect::<Vec<_>>()));
     coverage.insert("unlisted_violations".into(), json!(unlisted.len()));
+    if !probe_seen.is_empty() {
+        coverage.insert("cross_variant_probe_comparisons".into(), json!(probe_comparisons));
+    }
     if let Some(x) = merged["monitor"].get("exhaustive") {
         coverage.insert("exhaustive".into(), x.clone());
     }
